@@ -42,7 +42,7 @@ func main() {
 	nOps := ev.Pick(40, 300)
 	var names []string
 	for n := range registry.Probes {
-		if strings.HasPrefix(n, "core_") {
+		if strings.HasPrefix(n, "core_") || strings.HasPrefix(n, "rnd_") {
 			names = append(names, n)
 		}
 	}
@@ -234,9 +234,9 @@ func runOp(rep *ev.Reporter, env *univ.Env, srv *drive.Server, name string, opSe
 }
 
 type info struct {
-	incremental, nullGroups, nested, inLists, labelled, incErrors int
-	strict                                                        bool
-	order                                                         string
+	incremental, nullGroups, nested, inLists, labelled, incErrors, underNulled int
+	strict                                                                     bool
+	order                                                                      string
 }
 
 func describe(got *drive.Real) []map[string]any {
@@ -263,6 +263,7 @@ func pathKey(p []any) string {
 // (or ""), and observation counters.
 func judge(want *ref.Result, got *drive.Real) (string, string, info) {
 	var in info
+	nulledSig, nulledWhy := "", ""
 	if len(got.Payloads) == 0 {
 		return "", "no payload at all", in
 	}
@@ -275,6 +276,7 @@ func judge(want *ref.Result, got *drive.Real) (string, string, info) {
 	seen := map[string]bool{}
 	delivered := map[string]bool{} // paths of groups already delivered (object paths)
 	var nullGroupPaths []string
+	var unresolved []int
 	n := len(got.Payloads)
 	var orderSB strings.Builder
 	for i, p := range got.Payloads {
@@ -325,11 +327,8 @@ func judge(want *ref.Result, got *drive.Real) (string, string, info) {
 		// the path must resolve to a non-null object in what the client has so far
 		target := resolve(merged, p.Path)
 		if target == nil || target.Kind != sjson.Object {
-			sig := ""
-			if len(p.Path) > 0 {
-				sig = "nested-deferred-group-before-parent"
-			}
-			return sig, fmt.Sprintf("incremental payload %d (path %s, label %q) arrived before the payload that delivers its object: path does not resolve to an object in the data merged so far", i, pathKey(p.Path), p.Label), in
+			unresolved = append(unresolved, i)
+			continue
 		}
 		delivered[pathKey(p.Path)] = true
 		if p.Data == nil || p.Data.Kind == sjson.Null {
@@ -345,20 +344,111 @@ func judge(want *ref.Result, got *drive.Real) (string, string, info) {
 		}
 	}
 	in.order = orderSB.String()
-	if d := drive.DiffErrors(want.Errors, allErrs); d != "" {
-		return "", "errors of all payloads together differ from the plain execution's errors: " + d, in
+	// payloads whose path could not be found when they arrived
+	for _, i := range unresolved {
+		p := got.Payloads[i]
+		if t := resolve(merged, p.Path); t != nil && t.Kind == sjson.Object {
+			return "nested-deferred-group-before-parent", fmt.Sprintf("incremental payload %d (path %s, label %q) arrived before the payload that delivers its object", i, pathKey(p.Path), p.Label), in
+		}
+		// the object never reaches the client: an ancestor was removed by null propagation after
+		// the group had been started
+		if nullAncestor(merged, p.Path) {
+			in.underNulled++
+			nulledSig = "deferred-group-delivered-under-nulled-ancestor"
+			nulledWhy = fmt.Sprintf("incremental payload %d (path %s, label %q) belongs to an object that null propagation removed from the response: a client can never find its path", i, pathKey(p.Path), p.Label)
+			continue
+		}
+		return "", fmt.Sprintf("incremental payload %d (path %s, label %q): path does not resolve to an object in the merged data", i, pathKey(p.Path), p.Label), in
+	}
+	// no error that the plain execution would not report; errors the plain execution reports but the
+	// deferred execution does not must lie in a part of the response that is null for the client
+	if why := errorsSubset(want.Errors, allErrs, merged); why != "" {
+		return "", why, in
 	}
 	if len(nullGroupPaths) == 0 {
 		in.strict = true
 		if d := sjson.Diff(want.Data, merged, true, "data"); d != "" {
 			return "", "merged result differs from the plain result: " + d, in
 		}
-		return "", "", in
+		return nulledSig, nulledWhy, in
 	}
 	if d := refines(want.Data, merged, "", nullGroupPaths); d != "" {
 		return "", "merged result is not explained by the plain result plus null propagation stopping at a deferred group's object: " + d, in
 	}
-	return "", "", in
+	return nulledSig, nulledWhy, in
+}
+
+// nullAncestor reports whether some proper prefix of path resolves to null in root.
+func nullAncestor(root *sjson.Value, path []any) bool {
+	if root == nil || root.Kind == sjson.Null {
+		return true
+	}
+	for l := 1; l <= len(path); l++ {
+		v := resolve(root, path[:l])
+		if v != nil && v.Kind == sjson.Null {
+			return true
+		}
+		if v == nil {
+			return false
+		}
+	}
+	return false
+}
+
+// errorsSubset: every reported error is one the plain execution reports (multiset); every error the
+// plain execution reports that is missing lies under a null of the merged data.
+func errorsSubset(plain, got []ref.ErrExp, merged *sjson.Value) string {
+	count := map[string]int{}
+	for _, e := range plain {
+		count[e.String()]++
+	}
+	for _, e := range got {
+		if count[e.String()] == 0 {
+			return "an error is reported that the plain execution does not report: " + e.String()
+		}
+		count[e.String()]--
+	}
+	for _, e := range plain {
+		if count[e.String()] > 0 {
+			count[e.String()]--
+			if !nullAncestor(merged, parsePath(e.Path)) {
+				return "an error of the plain execution is missing although its position is not inside a null part of the merged result: " + e.String()
+			}
+		}
+	}
+	return ""
+}
+
+// parsePath turns "a.b[0].c" back into path elements.
+func parsePath(s string) []any {
+	var out []any
+	cur := ""
+	flush := func() {
+		if cur != "" {
+			out = append(out, cur)
+			cur = ""
+		}
+	}
+	for i := 0; i < len(s); i++ {
+		switch s[i] {
+		case '.':
+			flush()
+		case '[':
+			flush()
+			j := strings.IndexByte(s[i:], ']')
+			if j < 0 {
+				return out
+			}
+			n := 0
+			fmt.Sscanf(s[i+1:i+j], "%d", &n)
+			out = append(out, n)
+			i += j
+		default:
+			cur += string(s[i])
+		}
+	}
+	flush()
+	return out
 }
 
 func resolve(root *sjson.Value, path []any) *sjson.Value {
